@@ -310,6 +310,59 @@ pub fn check_wire(call: &Call, world: &mut World, ok: bool) -> Vec<Violation> {
                 }
             }
         }
+        // when the real HTTP client ran: the stream is one HTTP/1.1 GET of /frontpage with the caller's
+        // address as Host, the client's identification and negotiation headers, no body, nothing else
+        let stream: Vec<u8> = tx.iter().flat_map(|(_, _, d)| d.iter().copied()).collect();
+        if !stream.is_empty() {
+            world.stats.probe("http_request_stream_checked");
+            let text = String::from_utf8_lossy(&stream).to_string();
+            let host = match call.ip {
+                std::net::IpAddr::V6(ip) => format!("[{ip}]:{port}"),
+                ip => format!("{ip}:{port}"),
+            };
+            let mut problem: Option<String> = None;
+            match text.split_once("\r\n\r\n") {
+                None => problem = Some("no complete request head".into()),
+                Some((head, rest)) => {
+                    if !rest.is_empty() {
+                        problem = Some(format!("{} bytes after the request head", rest.len()));
+                    }
+                    let mut lines = head.split("\r\n");
+                    if lines.next() != Some("GET /frontpage HTTP/1.1") {
+                        problem = Some("request line is not 'GET /frontpage HTTP/1.1'".into());
+                    }
+                    let mut host_seen = 0;
+                    for l in lines {
+                        match l.split_once(": ") {
+                            Some((k, val)) if k.eq_ignore_ascii_case("host") => {
+                                host_seen += 1;
+                                if val != host {
+                                    problem = Some(format!("Host header is {val:?}"));
+                                }
+                            }
+                            Some((k, val)) if k.eq_ignore_ascii_case("user-agent") => {
+                                if !val.starts_with("gamedig/") {
+                                    problem = Some(format!("User-Agent is {val:?}"));
+                                }
+                            }
+                            Some((k, _)) if k.eq_ignore_ascii_case("accept") || k.eq_ignore_ascii_case("accept-encoding") => {}
+                            _ => problem = Some(format!("unexpected header line {l:?}")),
+                        }
+                    }
+                    if host_seen != 1 {
+                        problem = Some(format!("{host_seen} Host headers"));
+                    }
+                }
+            }
+            if let Some(pb) = problem {
+                v.push(Violation::new(
+                    format!("{fam}|request-bytes"),
+                    format!("the HTTP request stream is not the one GET of /frontpage the game defines: {pb}"),
+                    format!("GET /frontpage HTTP/1.1, Host: {host}, User-Agent: gamedig/<version>, Accept, Accept-Encoding, blank line"),
+                    text.chars().take(300).collect::<String>(),
+                ));
+            }
+        }
         return v;
     }
     let Some(exp) = expected else { return v };
